@@ -70,8 +70,12 @@ func c19(c *h.Ctx) {
 		}
 		sc := bufio.NewScanner(bytes.NewReader(res.Stdout))
 		for sc.Scan() {
-			if strings.Contains(sc.Text(), `"k":"fmtresult"`) {
-				resCh <- [3]string{j.o, j.f, sc.Text()}
+			if t := sc.Text(); strings.Contains(t, `"k":"fmtresult"`) {
+				// the child's standard output is also where cockpit draws: a spinner frame may precede the record
+				if k := strings.Index(t, `{"`); k > 0 {
+					t = t[k:]
+				}
+				resCh <- [3]string{j.o, j.f, t}
 			}
 		}
 		c.Nontrivial("fmt" + j.f + j.o)
